@@ -256,6 +256,11 @@ class Facts:
             return out
         if d[0] == "call":
             key, args = d[1], d[3]
+            if key in ("slice::windows", "slice::chunks_exact") and len(args) == 2:
+                out.append(("eq", ("len", item), args[1]))      # every window / exact chunk has that length
+            if key == "slice::chunks" and len(args) == 2:
+                out.append(("le", ("len", item), args[1]))
+                out.append(("lt", ("const", "usize", 0), ("len", item)))
             if key == "core::iter::traits::iterator::Iterator::step_by" and args:
                 inner = args[0]
                 if inner[0] == "agg" and inner[1] == "adt" and inner[2][0].endswith("ops::range::Range"):
